@@ -42,6 +42,7 @@ func main() {
 	parts := fs.Int("parts", 1, "windows: number of slices")
 	clients := fs.Int("clients", 3, "conc: client goroutines")
 	maximg := fs.Int("maximg", 0, "conc -crashpoints: crash points per history (0 = 150)")
+	transport := fs.Bool("transport", false, "put the repository's XDR/RPC path (nfstypes + rfc1057 over an in-process pipe) in front of the server")
 	sconc := fs.Int("sconc", 0, "simple/kvs: concurrent clients (0 = sequential driver)")
 	access := fs.Bool("access", false, "conc: record lock events and inode accesses instead of the history")
 	sizesFlag := fs.String("sizes", "", "layout: disk sizes, e.g. 1536-1600,32760-32776 (increasing)")
@@ -56,6 +57,7 @@ func main() {
 	disks := fs.String("disks", "", "comma separated disk sizes cycled over segments (overrides -disk)")
 	snapEach := fs.Int("snapeach", 0, "structural snapshot every n steps (0 = only at the end)")
 	fs.Parse(os.Args[2:])
+	drv.UseTransport = *transport
 	if os.Getenv("VERIF_DEBUG_LEAK") != "" {
 		drv.AfterExec = func(c *drv.Call) {
 			if h := drv.Mon.Held(); len(h) > 0 {
